@@ -147,7 +147,7 @@ prop(
     functions=[
         "protobuf::varint::read_varint (over Cursor<&[u8]> and over a one-byte-at-a-time BufRead)",
         "protobuf::value::ValueReader::{new, from_buf, skip, read_bytes, position}",
-        "protobuf::value::ValueReader::{read_i32, read_i64} over a BufRead that refills 3 bytes at a time (values straddling refills)",
+        "protobuf::value::ValueReader::{read_i32, read_i64, read_bytes(5)} over a BufRead that refills 3 bytes at a time (values straddling refills)",
         "protobuf::value::LimitReader::{new, sub_limit, check_has_bytes, read_bytes, read_string, skip, read_i64}",
         "protobuf::field::{Fields::new, Fields::next, Field::skip} (thorough tier, <= 6 bytes)",
     ],
